@@ -363,6 +363,8 @@ impl PtSide {
                 st.st_size = u(a, "size") as i64;
                 st.st_atime = u(a, "atime") as i64;
                 st.st_mtime = u(a, "mtime") as i64;
+                st.st_atime_nsec = u(a, "atime_ns") as i64;
+                st.st_mtime_nsec = u(a, "mtime_ns") as i64;
                 match fs.setattr(&ctx, n.into(), st, h, valid) {
                     Ok((st, _)) => StepRes::ok().with_stat(st),
                     Err(e) => fail(&e),
